@@ -9,7 +9,7 @@
 
   `VeqEquiv veq`: `==` on the (non-missing) values is an equivalence.  `WF`: the structural
   invariants of the containers (every column of a TypeBlocks has `rows` cells and every block a
-  column; a non-terminal IndexLevel has one target per label).
+  column — a zero-column TypeBlocks has no block and is covered; a non-terminal IndexLevel has one target per label).
 -/
 import SFModel.EqualsLemmas
 set_option linter.unusedSectionVars false
@@ -231,10 +231,11 @@ theorem layout_irrelevant_equals_frame (o : Opts) (a a' b : Frame ν δ κ α) (
 
 /-! ### hashable variants -/
 
-/-- FrameHE: `a == b` is the plain Boolean `equals(compare_name=True, compare_dtype=False,
-    compare_class=False, skipna=True)`; `!=` is its negation; `==` is symmetric; `a == b` forces
-    `hash(a) = hash(b)` (the hash is a function of the two label tuples, which `==` forces to be
-    pairwise equal) — as `Except` values: for hierarchical axes both sides raise (see below). -/
+/-- FrameHE, every kind of axis (flat or hierarchical): `a == b` is the plain Boolean
+    `equals(compare_name=True, compare_dtype=False, compare_class=False, skipna=True)`; `!=` is its
+    negation; `==` is symmetric; `a == b` forces `hash(a) = hash(b)`: the hash (total since commit
+    7f42cd3: `hash((tuple(self.index), tuple(self.columns)))`) is a function of the two label tuples,
+    which `==` forces to be pairwise equal (for a hierarchy through the tree walk). -/
 theorem he_contract {η : Type} (hv : VeqEquiv veq) {h : Cell α → η} (hh : HashRespects veq h) (mix : List η → η)
     (a b : Frame ν δ κ α) (r : δ) (co : Cell α → Cell α) (hco : Keeps co) (wa : a.WF) (wb : b.WF) :
     a.heEq veq b r co = a.equals veq b ⟨true, false, false, true⟩ r co ∧
@@ -244,9 +245,10 @@ theorem he_contract {η : Type} (hv : VeqEquiv veq) {h : Cell α → η} (hh : H
   refine ⟨rfl, rfl, equals_symm hv heOpts a b r co hco wa wb, ?_⟩
   intro he
   have s := (Frame.equals_iff veq heOpts a b r co hco wa wb).mp he
-  simp only [Frame.heHash, hashKey_eq hh (o := heOpts) rfl s.2.1, hashKey_eq hh (o := heOpts) rfl s.2.2.1]
+  simp only [Frame.heHash, labelHashes_eq hh mix (o := heOpts) rfl s.2.1,
+    labelHashes_eq hh mix (o := heOpts) rfl s.2.2.1]
 
-/-- SeriesHE: the same contract -/
+/-- SeriesHE: the same contract, every kind of index -/
 theorem he_contract_series {η : Type} (hv : VeqEquiv veq) {h : Cell α → η} (hh : HashRespects veq h)
     (mix : List η → η) (a b : Series ν δ κ α) (wa : a.index.WF) (wb : b.index.WF) :
     a.heEq veq b = a.equals veq b ⟨true, false, false, true⟩ ∧
@@ -256,37 +258,25 @@ theorem he_contract_series {η : Type} (hv : VeqEquiv veq) {h : Cell α → η} 
   refine ⟨rfl, rfl, equals_symm_series hv heOpts a b wa wb, ?_⟩
   intro he
   have s := (Series.equals_iff veq heOpts a b wa wb).mp he
-  simp only [Series.heHash, hashKey_eq hh (o := heOpts) rfl s.2.1]
+  simp only [Series.heHash, labelHashes_eq hh mix (o := heOpts) rfl s.2.1]
 
-/-- `hash(FrameHE)` succeeds exactly when both axes are flat -/
-theorem he_hash_ok_iff_flat {η : Type} (h : Cell α → η) (mix : List η → η) (a : Frame ν δ κ α) :
-    (∃ v, a.heHash h mix = .ok v) ↔ (∃ i c, a.index = .flat i ∧ a.columns = .flat c) := by
-  unfold Frame.heHash
-  cases hi : a.index <;> cases hc : a.columns <;> simp [Axis.hashKey]
+/-- HISTORICAL (pinned-tree behaviour, repaired in /repo commit 7f42cd3): the hash of the pinned
+    tree, `hash(tuple(index.values))`, succeeded exactly when both axes are flat. -/
+theorem he_hash_pinned_ok_iff_flat {η : Type} (h : Cell α → η) (mix : List η → η) (a : Frame ν δ κ α) :
+    (∃ v, a.heHashPinned h mix = .ok v) ↔ (∃ i c, a.index = .flat i ∧ a.columns = .flat c) := by
+  unfold Frame.heHashPinned
+  cases hi : a.index <;> cases hc : a.columns <;> simp [Axis.hashKeyPinned]
 
-/-- Full hash contract (`a == b → hash a` and `hash b` both succeed and agree), flat axes:
-    he_contract_partial.  Missing for the full statement: hierarchical axes (next theorem). -/
-theorem he_contract_partial {η : Type} {h : Cell α → η} (hh : HashRespects veq h) (mix : List η → η)
-    (a b : Frame ν δ κ α) (r : δ) (co : Cell α → Cell α) (hco : Keeps co) (wa : a.WF) (wb : b.WF)
-    (hflat : ∃ i c, a.index = .flat i ∧ a.columns = .flat c)
-    (he : a.heEq veq b r co = true) :
-    ∃ v, a.heHash h mix = .ok v ∧ b.heHash h mix = .ok v := by
-  obtain ⟨v, hv'⟩ := (he_hash_ok_iff_flat h mix a).mpr hflat
-  have s := (Frame.equals_iff veq heOpts a b r co hco wa wb).mp he
-  refine ⟨v, hv', ?_⟩
-  rw [← hv']
-  simp only [Frame.heHash, hashKey_eq hh (o := heOpts) rfl s.2.1, hashKey_eq hh (o := heOpts) rfl s.2.2.1]
-
-/-- The full contract fails in the mirrored model as soon as an axis is an IndexHierarchy:
-    `hash` raises (the hashed tuple holds the rows of a 2-D array).  Replayed on the real code
-    (finding F9-he-hash-hierarchy). -/
+/-- HISTORICAL (pinned-tree behaviour, repaired in /repo commit 7f42cd3): with an IndexHierarchy
+    axis the pinned `hash` raised (the hashed tuple held the rows of a 2-D array), so the hash
+    contract failed for such containers (was finding F9-he-hash-hierarchy). -/
 theorem he_hash_hierarchy_counterexample :
     ¬ ∀ (a : Series Unit Unit Unit Nat), a.heEq (· == ·) a = true →
-        ∃ v, a.heHash (fun _ => (0 : Nat)) (fun _ => 0) = .ok v := by
+        ∃ v, a.heHashPinned (fun _ => (0 : Nat)) (fun _ => 0) = .ok v := by
   intro h
   have := h ⟨[.val 1], (), (), .hier ⟨.mk ⟨[.val 0], (), (), ()⟩ true [] 1 (), (), ()⟩, ()⟩ (by decide)
   obtain ⟨v, hv⟩ := this
-  simp [Series.heHash, Axis.hashKey] at hv
+  simp [Series.heHashPinned, Axis.hashKeyPinned] at hv
 
 /-! ### non-vacuity -/
 
@@ -306,6 +296,19 @@ example :
     let t : Level Unit Unit Unit Nat := .mk ⟨[.val 10, .val 11], (), (), ()⟩ false
       [.mk ⟨[.val 1, .val 2], (), (), ()⟩ true [] 0 (), .mk ⟨[.val 1], (), (), ()⟩ true [] 0 ()] 0 ()
     Level.rowsOf t = [[.val 10, .val 1], [.val 10, .val 2], [.val 11, .val 1]] := by decide
+
+/-- zero-column TypeBlocks of equal shape are equal (the shortcut), of different row counts not -/
+example :
+    tbEquals (· == ·) (⟨2, []⟩ : TB Nat (Cell Nat)) ⟨2, []⟩ ⟨true, true, true, false⟩ 0 = true ∧
+    tbEquals (· == ·) (⟨2, []⟩ : TB Nat (Cell Nat)) ⟨3, []⟩ {} 0 = false := by decide
+
+/-- two hierarchical SeriesHE with the same labels: `==` and equal hashes (hash = sum of label hashes here) -/
+example :
+    let ix : Axis Unit Unit Unit Nat := .hier ⟨.mk ⟨[.val 10], (), (), ()⟩ false
+      [.mk ⟨[.val 1, .val 2], (), (), ()⟩ true [] 0 ()] 0 (), (), ()⟩
+    let a : Series Unit Unit Unit Nat := ⟨[.val 5, .val 6], (), (), ix, ()⟩
+    a.heEq (· == ·) a = true ∧
+      a.heHash (fun c => match c with | .val v => v | .na => 0) List.sum = 23 := by decide
 
 /-- NaN on one side only: unequal in both directions (the repaired asymmetry) -/
 example :
